@@ -146,8 +146,21 @@ func (m *c10Mon) OnState(w *world.World, hist []world.Op) []explore.Finding {
 		if !check(cur, startPos, nil) {
 			continue
 		}
+		if n == 0 {
+			// empty trees: no call may panic or fail, whatever is called next, and there is never an entry
+			for _, seq := range [][]byte{{'F'}, {'B'}, {'F', 'F'}, {'F', 'B'}, {'B', 'F'}, {'B', 'B'}} {
+				cur, fail := run(seq)
+				atomic.AddInt64(&m.seqs, 1)
+				if fail != "" {
+					add(explore.Finding{Sig: fmt.Sprintf("C10|%s|%s|%s", startName, cls, fail), What: "a cursor call failed or panicked on an empty tree", Detail: fmt.Sprintf("start %s(%v) steps %s: %s", st.kind, cfg.Key(st.k), seq, fail)})
+					continue
+				}
+				check(cur, -1, seq)
+			}
+			continue
+		}
 		if startPos < 0 || startPos >= n {
-			continue // off an end: behaviour afterwards is not specified
+			continue // off an end of a non-empty tree: behaviour afterwards is not specified
 		}
 		type item struct {
 			seq []byte
